@@ -63,4 +63,16 @@ func TestEnumerationSize(t *testing.T) {
 			}
 		}
 	}
+	for i := 0; i < 6; i++ {
+		p := handoverProgram(r, "o")
+		if countHandover(p) == 0 {
+			t.Fatal("no handover step")
+		}
+		t.Logf("handover: %s", p)
+		for h, e := range model(p) {
+			if !e.Started {
+				t.Fatalf("handler %d never started in %s", h, p)
+			}
+		}
+	}
 }
